@@ -6,6 +6,7 @@ CONSTANTS
   Intervals = {}
   MaxActs = 0
   MaxSets = 0
+  Cons = {}
 INVARIANT AtEnd
 POSTCONDITION Accepted
 CHECK_DEADLOCK FALSE
